@@ -424,6 +424,22 @@ def oracle_mps(case) -> Result:
                 if all(v - cf > tol for v in raised) and cf - lowered > tol and gi == 0.0:
                     res.bad('zero-gradient-although-raising-the-coefficient-raises-the-cost',
                             metric=name, selector=qn, index=i, cost=cf, cost_after=c2)
+        # one-hot coefficients (hard sampling): value and gradients must stay finite although
+        # the unselected precisions have a coefficient of exactly zero
+        mps.update_softmax_options(hard=True)
+        mps(x)
+        ch = must(res, 'cost', get, name)
+        if ch is not None:
+            if not _finite_nonneg(res, 'mps', ch, metric=name, sampling='hard', **ctx):
+                return res
+            if alphas and ch.requires_grad:
+                gh = torch.autograd.grad(ch, [a for _, a in alphas], allow_unused=True,
+                                         retain_graph=True)
+                for (qn, a), g in zip(alphas, gh):
+                    if g is not None and not bool(torch.isfinite(g).all()):
+                        res.bad('cost-gradient-not-finite', metric=name, selector=qn,
+                                sampling='hard')
+        mps.update_softmax_options(hard=False)
         mps(x)
         snap = float(get(name))
         perturb_net(mps, case['pseed'])
